@@ -1,4 +1,9 @@
+import Liquid.Std
 import Proofs.PostLemmas
+import Proofs.RunLemmas
+import Proofs.ScopeLemmas
+import Proofs.LoopLemmas
+import Proofs.C10
 /-!
 # C12 — assign/capture bind for the rest of the render; loop variables are restored
 -/
@@ -142,3 +147,691 @@ theorem include_sees_vars (c : RCtx) (line : Nat) (args : Bytes) (s : RS) (e : E
   funext r
   obtain ⟨st, out⟩ := r
   cases st <;> rfl
+
+/-! ## Capture equivalence -/
+
+/-- printing a variable that holds captured text `out` is one write of `out` -/
+theorem print_str_var (c : RCtx) (hO : ∀ b, c.O.chunks (.str b) = .ok [b]) (line : Nat) (x out : Bytes) (s : RS)
+    (hx : s.env.get x = .str out) :
+    (renderList c [.obj line (.var x)] s).runPure =
+      (s.tw.buf, .ok (.done, { env := s.env,
+                               tw := { buf := if s.tw.trim then trimLeftSpace out else out, trim := false } })) := by
+  have hev : evaluate c.P s.env (.var x) = .ok (.str out) := by
+    simp only [evaluate, eval, hx]; rfl
+  simp only [renderList, renderNode, wrapFailAt, M.mapFail, bind, M.bind, M.getEnv, Prog.bind, hev,
+    M.ofRes, pure, M.pure]
+  split
+  · next h => simp [GoVal.isNil] at h
+  simp only [hO, M.bind, M.pure, Prog.bind, writeAllM, bind, pure]
+  unfold writeM
+  simp only
+  split
+  · next hb =>
+    have : s.tw.buf = [] := by simpa using hb
+    simp only [Prog.bind, Prog.mapFail, Prog.runPure, this, M.pure]
+  · simp only [Prog.bind, Prog.mapFail, Prog.runPure, List.append_nil, M.pure]
+
+/-- **C12 (capture_equiv).** `{% capture x %}BODY{% endcapture %}{{ x }}` renders what `BODY`
+    renders in place, and leaves the variables as `BODY` leaves them, plus `x`.
+
+    Stated on compiled nodes, for every context whose include handler renders into its own buffer
+    (`IncQuiet`; the engine's does, `incQuiet_mkCtx`) and whose output layer prints a string as one
+    write of its bytes (`hO`; the standard one does, `stdOut_str`): if the block body `BODY`, rendered
+    in place from state `s` on a fault-free writer, ends normally having put the bytes `R` through
+    the trim writer and leaving the state `s'`, then the capture-and-print sequence from the same
+    state also ends normally, the bytes it has put through plus the text it leaves pending are
+    exactly `R` (`R = s.tw.buf ++ out`, where `s.tw.buf` is the text that was pending before and
+    `out` the captured text, now pending), and its variables are those of `s'` with `x` bound to
+    `out`.
+
+    Side conditions (both hold at the start of a render, where the trim writer is empty:
+    `capture_equiv_root` has none):
+    * `htrim`: no `-%}` is waiting to trim what comes next. In place it trims the first *write* of
+      the body only (and an all-blank first write uses it up), after the capture it trims the whole
+      captured text: `capture_needs_flag_clear` is a body where the two differ.
+    * `hbuf`: the pending text does not end in white space. A body starting with `{%-` trims the
+      pending text in place, but inside the capture it finds an empty buffer:
+      `capture_needs_no_trailing_space`.
+    What is *not* claimed: that what follows sees the same trim-writer state. After the in-place
+    body the flag of a trailing `-%}` is still set and only the last written chunk can be trimmed
+    by a following `{%-`; after capture-and-print the flag is clear and the whole text is one
+    chunk (`capture_trailing_trim_differs`). -/
+theorem capture_equiv (c : RCtx) (hinc : IncQuiet c) (hO : ∀ b, c.O.chunks (.str b) = .ok [b])
+    (l1 l2 : Nat) (x : Bytes) (body : List Node) (s s' : RS) (R : Bytes)
+    (htrim : s.tw.trim = false) (hbuf : trimRightSpace s.tw.buf = s.tw.buf)
+    (hbody : (renderBlockBody c body s).runPure = (R, .ok (.done, s'))) :
+    ∃ out, R = s.tw.buf ++ out ∧
+      (renderList c [.capture l1 x body, .obj l2 (.var x)] s).runPure =
+        (s.tw.buf, .ok (.done, { env := s'.env.set x (.str out), tw := { buf := out, trim := false } })) := by
+  obtain ⟨env, tw⟩ := s
+  obtain ⟨B, t⟩ := tw
+  simp only at htrim hbuf
+  subst htrim
+  obtain ⟨ops, o, ht⟩ := traced_renderList c hinc body env
+  -- the body ends normally, so its trace ends with `done`
+  have hdone : ∃ env', o = .ok .done env' := by
+    cases o with
+    | ok st env' =>
+      cases st with
+      | done => exact ⟨env', rfl⟩
+      | brk e =>
+        have := tracedAt_blockBody_other c body env ops _ ht (by intro _ h; cases h) ⟨B, false⟩
+        rw [hbody] at this; simp [EOut.withTw] at this
+      | cont e =>
+        have := tracedAt_blockBody_other c body env ops _ ht (by intro _ h; cases h) ⟨B, false⟩
+        rw [hbody] at this; simp [EOut.withTw] at this
+    | err e =>
+      have := tracedAt_blockBody_other c body env ops _ ht (by intro _ h; cases h) ⟨B, false⟩
+      rw [hbody] at this; simp [EOut.withTw] at this
+    | panic w =>
+      have := tracedAt_blockBody_other c body env ops _ ht (by intro _ h; cases h) ⟨B, false⟩
+      rw [hbody] at this; simp [EOut.withTw] at this
+    | unmodelled w =>
+      have := tracedAt_blockBody_other c body env ops _ ht (by intro _ h; cases h) ⟨B, false⟩
+      rw [hbody] at this; simp [EOut.withTw] at this
+  obtain ⟨env', rfl⟩ := hdone
+  -- in place: everything the operations produce from the pending text `B`
+  have hplace := tracedAt_blockBody_done c body env env' ops ht ⟨B, false⟩
+  rw [hbody, twTotal_flush, tw_run_flush_state] at hplace
+  simp only [EOut.withTw, Prod.mk.injEq, Prog.Outcome.ok.injEq] at hplace
+  obtain ⟨hR, -, hs'⟩ := hplace
+  have hpend := (twTotal_pending ops B false hbuf).1
+  refine ⟨twTotal {} ops, ?_, ?_⟩
+  · rw [hR, hpend]
+  · -- captured: the same operations from an empty trim writer, then one write of the text
+    have hcap := captureM_of_traced (renderList c body) env env' ops .done ht ⟨B, false⟩
+    rw [capture_seq c l1 x body [.obj l2 (.var x)] _ _ _ hcap]
+    rw [print_str_var c hO l2 x (twTotal {} ops) _ (Env.get_set_same _ _ _)]
+    simp only [hs', Bool.false_eq_true, if_false]
+
+/-- the standard output layer prints a string as one write of its bytes (hypothesis `hO`) -/
+theorem stdOut_str (b : Bytes) : stdOut.chunks (.str b) = .ok [b] := by
+  simp [stdOut, stdChunks, GoVal.toLiquid, writeChunksL, writeObjectL, sprint, Res.bind]
+
+/-- **C12 (capture_equiv, whole template).** At the start of a render nothing is pending and no
+    trim is armed, so no side condition remains: for every body that renders normally as a
+    template of its own, `{% capture x %}BODY{% endcapture %}{{ x }}` renders exactly the same
+    bytes, and ends normally too. -/
+theorem capture_equiv_root (c : RCtx) (hinc : IncQuiet c) (hO : ∀ b, c.O.chunks (.str b) = .ok [b])
+    (l1 l2 : Nat) (x : Bytes) (body : List Node) (env : Env) (out : Bytes)
+    (hbody : (renderRoot c body env).runPure = (out, .ok .done)) :
+    (renderRoot c [.capture l1 x body, .obj l2 (.var x)] env).runPure = (out, .ok .done) := by
+  rw [renderRoot_eq_blockBody, Prog.runPure_bind] at hbody
+  rcases hb : (renderBlockBody c body ⟨env, {}⟩).runPure with ⟨R, o⟩
+  rw [hb] at hbody
+  cases o with
+  | ok r =>
+    obtain ⟨st, s'⟩ := r
+    simp only [Prog.runPure, List.append_nil, Prod.mk.injEq, Prog.Outcome.ok.injEq] at hbody
+    obtain ⟨rfl, rfl⟩ := hbody
+    obtain ⟨out', hR, hrun⟩ := capture_equiv c hinc hO l1 l2 x body ⟨env, {}⟩ s' R rfl rfl hb
+    simp only [List.nil_append] at hR
+    subst hR
+    unfold renderRoot
+    rw [Prog.runPure_bind, hrun]
+    simp only [wrapFailAt, M.mapFail, List.nil_append]
+    unfold flushM
+    simp only
+    split
+    · next he =>
+      have : R = [] := by simpa using he
+      simp [Prog.mapFail, Prog.bind, Prog.runPure, this]
+    · simp [Prog.mapFail, Prog.bind, Prog.runPure]
+  | err e => simp at hbody
+  | panic w => simp at hbody
+  | unmodelled w => simp at hbody
+
+/-! ### Why the side conditions of `capture_equiv` are needed: counterexamples
+
+A minimal context: no filters, strings print as themselves, no include. -/
+
+def demoPrims : Prims :=
+  { equal := fun _ _ => .ok false, less := fun _ _ => .ok false, contains := fun _ _ => .ok false,
+    equalFn := fun _ _ => .ok false, applyFilter := fun _ v _ => .ok v, hasFilter := fun _ => false }
+def demoOut : OutPrims := { chunks := fun v => match v with | .str b => .ok [b] | _ => .ok [] }
+def demoCtx : RCtx := { P := demoPrims, O := demoOut, cfg := {}, inc := fun _ _ _ => .unmodelled "no include" }
+
+theorem demoCtx_quiet : IncQuiet demoCtx := fun _ _ _ => trivial
+theorem demoOut_str (b : Bytes) : demoCtx.O.chunks (.str b) = .ok [b] := rfl
+
+/-- Non-vacuity of `capture_equiv`: pending text `x`, body `a {%- if … %}`-like
+    `[text "a ", trim-left, text "b"]`: in place the writer gets `xab`; the capture-and-print gets `x`
+    and holds `ab` — and `x` is bound to `ab`. -/
+example :
+    ∃ out, [120, 97, 98] = [120] ++ out ∧
+      (renderList demoCtx [.capture 1 [118] [.text 1 [97, 32], .trim true, .text 1 [98]], .obj 2 (.var [118])]
+        ⟨[], { buf := [120], trim := false }⟩).runPure =
+      ([120], .ok (.done, { env := Env.set [] [118] (.str out), tw := { buf := out, trim := false } })) :=
+  capture_equiv demoCtx demoCtx_quiet demoOut_str 1 2 [118] [.text 1 [97, 32], .trim true, .text 1 [98]]
+    ⟨[], { buf := [120], trim := false }⟩ ⟨[], {}⟩ [120, 97, 98] rfl rfl (by
+      simp [renderBlockBody, renderList, renderNode, wrapFailAt, M.mapFail, M.bind, M.pure, writeM, trimLeftM,
+        flushM, Prog.bind, Prog.mapFail, Prog.runPure, bind, pure, demoCtx]
+      rfl)
+
+/-- **Counterexample (side condition `hbuf`).** Pending text `a␠` (trailing blank), body
+    `{%- … %}b` = `[trim-left, text "b"]`. In place the trim-left bites into the pending text: the
+    writer gets `ab`. Captured, it finds an empty buffer: capture-and-print gives `a␠` then `b`. -/
+theorem capture_needs_no_trailing_space :
+    (renderBlockBody demoCtx [.trim true, .text 1 [98]] ⟨[], { buf := [97, 32], trim := false }⟩).runPure =
+      ([97, 98], .ok (.done, ⟨[], {}⟩)) ∧
+    (renderList demoCtx [.capture 1 [120] [.trim true, .text 1 [98]], .obj 1 (.var [120])]
+        ⟨[], { buf := [97, 32], trim := false }⟩).runPure =
+      ([97, 32], .ok (.done, ⟨[([120], .str [98])], { buf := [98], trim := false }⟩)) := by
+  constructor
+  · simp [renderBlockBody, renderList, renderNode, wrapFailAt, M.mapFail, M.bind, M.pure, writeM, trimLeftM,
+      flushM, Prog.bind, Prog.mapFail, Prog.runPure, bind, pure, demoCtx]
+    rfl
+  · simp [renderList, renderNode, wrapFailAt, wrapAt, M.mapFail, M.bind, M.pure, writeM, trimLeftM,
+      flushM, captureM, Prog.bind, Prog.mapFail, Prog.runPure, bind, pure, demoCtx, M.setVar, M.getEnv, M.ofRes, evaluate,
+      eval, Env.set, Env.get, GoVal.toLiquid, GoVal.unwrap, GoVal.isNil, demoOut, writeAllM, Status.wrap]
+    rfl
+
+/-- **Counterexample (side condition `htrim`).** A `-%}` is armed, body = two writes `␠` and `␠b`
+    (e.g. a blank text and an object printing `" b"`). In place the flag trims the first write
+    only (to nothing): the writer gets `␠b`. Captured, the text is `␠␠b`, and printing it with the
+    flag armed trims all of its leading blanks: `b`. -/
+theorem capture_needs_flag_clear :
+    (renderBlockBody demoCtx [.text 1 [32], .text 1 [32, 98]] ⟨[], { buf := [], trim := true }⟩).runPure =
+      ([32, 98], .ok (.done, ⟨[], {}⟩)) ∧
+    (renderList demoCtx [.capture 1 [120] [.text 1 [32], .text 1 [32, 98]], .obj 1 (.var [120])]
+        ⟨[], { buf := [], trim := true }⟩).runPure =
+      ([], .ok (.done, ⟨[([120], .str [32, 32, 98])], { buf := [98], trim := false }⟩)) := by
+  constructor
+  · simp [renderBlockBody, renderList, renderNode, wrapFailAt, M.mapFail, M.bind, M.pure, writeM,
+      flushM, Prog.bind, Prog.mapFail, Prog.runPure, bind, pure, demoCtx]
+    rfl
+  · simp [renderList, renderNode, wrapFailAt, wrapAt, M.mapFail, M.bind, M.pure, writeM,
+      flushM, captureM, Prog.bind, Prog.mapFail, Prog.runPure, bind, pure, demoCtx, M.setVar, M.getEnv, M.ofRes, evaluate,
+      eval, Env.set, Env.get, GoVal.toLiquid, GoVal.unwrap, GoVal.isNil, demoOut, writeAllM, Status.wrap]
+    rfl
+
+/-- **Counterexample (what follows).** The equivalence is about the bytes of the fragment, not
+    about the trim-writer state handed to what follows. Body `a{{ … -}}` = `[text "a", trim-right]`
+    followed by the text `␠b`: in place the trailing `-}}` trims the following text (`ab`); after
+    capture-and-print the flag is gone (`a␠b`). -/
+theorem capture_trailing_trim_differs :
+    (renderRoot demoCtx [.text 1 [97], .trim false, .text 1 [32, 98]] []).runPure = ([97, 98], .ok .done) ∧
+    (renderRoot demoCtx [.capture 1 [120] [.text 1 [97], .trim false], .obj 1 (.var [120]), .text 1 [32, 98]] []).runPure =
+      ([97, 32, 98], .ok .done) := by
+  have h : trimLeftSpace [32, 98] = [98] := rfl
+  constructor
+  · simp [renderRoot, renderList, renderNode, wrapFailAt, M.mapFail, M.bind, M.pure, writeM, trimRightM,
+      flushM, Prog.bind, Prog.mapFail, Prog.runPure, bind, pure, demoCtx, h]
+  · simp [renderRoot, renderList, renderNode, wrapFailAt, wrapAt, M.mapFail, M.bind, M.pure, writeM, trimRightM,
+      flushM, captureM, Prog.bind, Prog.mapFail, Prog.runPure, bind, pure, demoCtx, M.setVar, M.getEnv, M.ofRes, evaluate,
+      eval, Env.set, Env.get, GoVal.toLiquid, GoVal.unwrap, GoVal.isNil, demoOut, writeAllM, Status.wrap]
+
+/-- Non-vacuity of `capture_equiv_root`: the body `a {%- … %}b` renders `ab`, and so does its capture-and-print -/
+example :
+    (renderRoot demoCtx [.capture 1 [118] [.text 1 [97, 32], .trim true, .text 1 [98]], .obj 2 (.var [118])] []).runPure =
+      ([97, 98], .ok .done) :=
+  capture_equiv_root demoCtx demoCtx_quiet demoOut_str 1 2 [118] [.text 1 [97, 32], .trim true, .text 1 [98]] [] [97, 98] (by
+    simp [renderRoot, renderList, renderNode, wrapFailAt, M.mapFail, M.bind, M.pure, writeM, trimLeftM,
+      flushM, Prog.bind, Prog.mapFail, Prog.runPure, bind, pure, demoCtx]
+    rfl)
+
+/-! ## One flat variable map: nothing is popped when a block ends
+
+`EnvQ Q` is a condition on the variables a fragment returns with (`Q kind env`, `kind` = ended
+normally / by `break` / by `continue`). The rules below say, for every kind of block, that a
+condition on the variables established at the end of the block's bodies holds after the block:
+there is no scope to leave. They hold in every state and for every writer behaviour (`AllRet`),
+and they compose, so they cover every nesting. -/
+
+/-- **C12 (frame).** A fragment can change only the variables it writes (`writesNode`: targets of
+    `assign`/`capture`, `forloop` under `cycle`; a loop's own variable and `forloop` are restored
+    and do not count; `include` works on a copy): every other variable has its old value whenever
+    the fragment returns — for every nesting, state and writer behaviour. -/
+theorem only_written_change (c : RCtx) (y : Bytes) (body : List Node) (h : y ∉ writesList body) (s : RS) :
+    AllRet (fun r : Status × RS => r.2.env.get y = s.env.get y) (renderBlockBody c body s) :=
+  keeps_renderBlockBody c y body h s
+
+theorem only_written_change_node (c : RCtx) (y : Bytes) (n : Node) (h : y ∉ writesNode n) (s : RS) :
+    AllRet (fun r : Status × RS => r.2.env.get y = s.env.get y) (renderNode c n s) :=
+  keeps_renderNode c y n h s
+
+/-- **C12 (block end).** Closing a block changes no variable: what holds of the variables at the
+    end of a block's node sequence holds after the block (`RenderBlock` only adds a flush). -/
+theorem block_end_scope (c : RCtx) (body : List Node) (s : RS) (Q : SK → Env → Prop)
+    (h : AllRet (EnvQ Q) (renderList c body s)) : AllRet (EnvQ Q) (renderBlockBody c body s) := by
+  unfold renderBlockBody
+  refine AllRet.bind h (fun ⟨st, s1⟩ h1 => ?_)
+  cases st with
+  | done =>
+    refine AllRet.bind (sameEnv_wrapFailAt _ _ sameEnv_flush s1) (fun ⟨_, s2⟩ h2 => .ret _ ?_)
+    simp only [EnvQ] at h1 h2 ⊢
+    rw [h2]; exact h1
+  | brk e => exact .ret _ h1
+  | cont e => exact .ret _ h1
+
+/-- sequencing: what follows a node runs in exactly the state the node ends with -/
+theorem seq_scope (c : RCtx) (n : Node) (ns : List Node) (s : RS) (Q : SK → Env → Prop)
+    (h : AllRet (fun r : Status × RS => match r.1 with
+        | .done => AllRet (EnvQ Q) (renderList c ns r.2)
+        | _ => EnvQ Q r) (renderNode c n s)) :
+    AllRet (EnvQ Q) (renderList c (n :: ns) s) := by
+  rw [renderList]
+  refine AllRet.bind h (fun ⟨st, s1⟩ h1 => ?_)
+  cases st with
+  | done => exact h1
+  | brk e => exact .ret _ h1
+  | cont e => exact .ret _ h1
+
+theorem seq_scope_append (c : RCtx) (pre post : List Node) (s : RS) (Q : SK → Env → Prop)
+    (h : AllRet (fun r : Status × RS => match r.1 with
+        | .done => AllRet (EnvQ Q) (renderList c post r.2)
+        | _ => EnvQ Q r) (renderList c pre s)) :
+    AllRet (EnvQ Q) (renderList c (pre ++ post) s) := by
+  induction pre generalizing s with
+  | nil =>
+    rw [renderList] at h
+    cases h with | ret _ h => exact h
+  | cons n pre ih =>
+    rw [List.cons_append]
+    refine seq_scope c n (pre ++ post) s Q ?_
+    rw [renderList] at h
+    simp only [bind, M.bind] at h
+    -- read the post-condition of the head node off the sequence's
+    generalize renderNode c n s = p at h
+    induction p with
+    | ret r =>
+      obtain ⟨st, s1⟩ := r
+      cases st with
+      | done => exact .ret _ (ih s1 h)
+      | brk e => cases h with | ret _ h => exact .ret _ h
+      | cont e => cases h with | ret _ h => exact .ret _ h
+    | fail e => exact .fail _
+    | panic w => exact .panic _
+    | unmodelled w => exact .unmodelled _
+    | call b k ihk =>
+      cases h with | call _ _ hk => exact .call _ _ (fun r => ihk r (hk r))
+
+/-- **C12 (if).** What holds of the variables at the end of the branch bodies (each from the
+    state of the `if`, under its own test) — and of the untouched variables when no branch fires —
+    holds after the `if` block. -/
+theorem if_scope (c : RCtx) (line : Nat) (bs : List (CondT × List Node)) (s : RS) (Q : SK → Env → Prop)
+    (hnone : (∀ b ∈ bs, condRes c.P s.env b.1 = .ok false) → Q .done s.env)
+    (hb : ∀ b ∈ bs, condRes c.P s.env b.1 = .ok true → AllRet (EnvQ Q) (renderBlockBody c b.2 s)) :
+    AllRet (EnvQ Q) (renderNode c (.ifB line bs) s) := by
+  rw [renderNode]
+  refine AllRet.wrapAt ?_
+  induction bs with
+  | nil => rw [renderBranches]; exact .ret _ (hnone (by simp))
+  | cons b bs ih =>
+    obtain ⟨t, body⟩ := b
+    rw [renderBranches_cons]
+    cases h : condRes c.P s.env t with
+    | ok v =>
+      cases v with
+      | true => exact hb (t, body) (by simp) h
+      | false =>
+        refine ih (fun hall => hnone ?_) (fun b hm => hb b (by simp [hm]))
+        intro b hm
+        rcases List.mem_cons.mp hm with rfl | hm
+        · exact h
+        · exact hall b hm
+    | err e => exact .fail _
+    | panic w => exact .panic _
+    | unmodelled w => exact .unmodelled _
+
+/-- **C12 (case).** The same for `case`: the variables after the block are those at the end of the
+    clause that ran, or the untouched ones. -/
+theorem case_scope (c : RCtx) (line : Nat) (subject : Expr) (cs : List (Option (Nat × List Expr) × List Node))
+    (s : RS) (Q : SK → Env → Prop)
+    (hnone : Q .done s.env)
+    (hb : ∀ cl ∈ cs, AllRet (EnvQ Q) (renderBlockBody c cl.2 s)) :
+    AllRet (EnvQ Q) (renderNode c (.caseB line subject cs) s) := by
+  rw [renderNode]
+  refine AllRet.wrapAt ?_
+  simp only [bind, M.bind, M.getEnv, Prog.bind]
+  cases evaluate c.P s.env subject with
+  | ok sel =>
+    simp only [M.ofRes, pure, M.pure, Prog.bind]
+    induction cs with
+    | nil => rw [renderCases]; exact .ret _ hnone
+    | cons cl cs ih =>
+      obtain ⟨w, body⟩ := cl
+      cases w with
+      | none => rw [renderCases]; exact hb (none, body) (by simp)
+      | some le =>
+        obtain ⟨l, es⟩ := le
+        rw [renderCases_when]
+        cases whenRes c.P s.env sel es with
+        | ok v =>
+          cases v with
+          | true => exact hb (some (l, es), body) (by simp)
+          | false => exact ih (fun cl hm => hb cl (by simp [hm]))
+        | err e => exact .fail _
+        | panic w => exact .panic _
+        | unmodelled w => exact .unmodelled _
+  | err e => exact .fail _
+  | panic w => exact .panic _
+  | unmodelled w => exact .unmodelled _
+
+theorem no_else_clause_scope (P : Prims) (loc : Loc) (tr : Bool) (var : Bytes) (colsE : Option Expr)
+    (bodyM : M Status) (items : List GoVal) :
+    loopDispatch P loc tr var colsE bodyM none items = loopIterate P loc tr var colsE bodyM items := by
+  unfold loopDispatch; cases items <;> rfl
+
+/-- **C12 (for / tablerow).** A condition `I` on the variables that does not look at the loop
+    variable or `forloop`, holds before the loop and is preserved by the body (from every state),
+    holds after the loop — which always ends `done`; an `else` clause passes on what it
+    establishes. Nothing but the loop variable and `forloop` is restored. -/
+theorem loop_scope (c : RCtx) (line : Nat) (tr : Bool) (var : Bytes) (e : Expr) (mods : LoopMods) (body : List Node)
+    (clauses : List (List Node)) (s : RS) (I : Env → Prop) (Q : SK → Env → Prop)
+    (hI : ∀ env y w, (y = var ∨ y = nmForloop) → (I (env.set y w) ↔ I env))
+    (h0 : I s.env)
+    (hbody : ∀ s1, I s1.env → AllRet (fun r : Status × RS => I r.2.env) (renderBlockBody c body s1))
+    (hQ : ∀ env, I env → Q .done env)
+    (hels : ∀ els ∈ clauses, AllRet (EnvQ Q) (renderBlockBody c els s))
+    (hcl : clauses.length ≤ 1) :
+    AllRet (EnvQ Q) (renderNode c (.loop line tr var e mods body clauses) s) := by
+  have hiter : ∀ items, AllRet (EnvQ Q)
+      (loopIterate c.P ⟨line, true⟩ tr var mods.cols (renderBlockBody c body) items s) := by
+    intro items
+    have h1 := presM_loopIterate I c.P ⟨line, true⟩ tr var mods.cols (renderBlockBody c body) hI hbody items s h0
+    have h2 := loopIterate_done c.P ⟨line, true⟩ tr var mods.cols (renderBlockBody c body) items s
+    refine (h1.and h2).mono (fun r hr => ?_)
+    obtain ⟨st, s'⟩ := r
+    simp only at hr
+    obtain ⟨hi, rfl⟩ := hr
+    exact hQ _ hi
+  match clauses, hcl, hels with
+  | [], _, _ =>
+    rw [renderNode]
+    refine loopRun_post _ _ _ _ _ _ _ _ _ s Q (fun items => ?_)
+    rw [no_else_clause_scope]
+    exact hiter items
+  | [els], _, hels =>
+    rw [renderNode]
+    refine loopRun_post _ _ _ _ _ _ _ _ _ s Q (fun items => ?_)
+    cases items with
+    | nil => exact hels els (by simp)
+    | cons x xs => exact hiter (x :: xs)
+  | _ :: _ :: _, h, _ => simp at h
+
+/-- **C12 (for / tablerow, at least one item).** When the head of the loop evaluates (collection `v`
+    with items `items0`, `offset`/`limit` → `off`/`lim`) and selects at least one item: if the body
+    turns `I` (true of the variables before the loop) into `J` and keeps `J`, then `J` holds after the
+    loop — what an iteration assigns is still there when the loop is over (only the loop variable
+    and `forloop`, which `I` and `J` may not mention, are restored). -/
+theorem loop_scope_visited (c : RCtx) (line : Nat) (tr : Bool) (var : Bytes) (e : Expr) (mods : LoopMods)
+    (body : List Node) (clauses : List (List Node)) (s : RS) (v : GoVal) (items0 : List GoVal) (off lim : Option Int)
+    (x : GoVal) (xs : List GoVal) (I J : Env → Prop) (Q : SK → Env → Prop)
+    (hcl : clauses.length ≤ 1)
+    (hv : evaluate c.P s.env e = .ok v) (hitems : loopItems v = .ok items0)
+    (hoff : intModifier c.P mods.offset ⟨line, true⟩ s = .ret (off, s))
+    (hlim : intModifier c.P mods.limit ⟨line, true⟩ s = .ret (lim, s))
+    (hsel : selectItems mods.reversed off lim items0 = x :: xs)
+    (hI : ∀ env y w, (y = var ∨ y = nmForloop) → (I (env.set y w) ↔ I env))
+    (hJ : ∀ env y w, (y = var ∨ y = nmForloop) → (J (env.set y w) ↔ J env))
+    (h0 : I s.env)
+    (hfirst : ∀ s1, I s1.env → AllRet (fun r : Status × RS => J r.2.env) (renderBlockBody c body s1))
+    (hnext : ∀ s1, J s1.env → AllRet (fun r : Status × RS => J r.2.env) (renderBlockBody c body s1))
+    (hQ : ∀ env, J env → Q .done env) :
+    AllRet (EnvQ Q) (renderNode c (.loop line tr var e mods body clauses) s) := by
+  have hiter : AllRet (EnvQ Q)
+      (loopIterate c.P ⟨line, true⟩ tr var mods.cols (renderBlockBody c body) (x :: xs) s) := by
+    have h1 := tri_loopIterate_cons I J c.P ⟨line, true⟩ tr var mods.cols (renderBlockBody c body) hI hJ hfirst hnext
+      x xs s h0
+    have h2 := loopIterate_done c.P ⟨line, true⟩ tr var mods.cols (renderBlockBody c body) (x :: xs) s
+    refine (h1.and h2).mono (fun r hr => ?_)
+    obtain ⟨st, s'⟩ := r
+    simp only at hr
+    obtain ⟨hj, rfl⟩ := hr
+    exact hQ _ hj
+  have hdisp : ∀ elseM, loopDispatch c.P ⟨line, true⟩ tr var mods.cols (renderBlockBody c body) elseM (x :: xs) =
+      loopIterate c.P ⟨line, true⟩ tr var mods.cols (renderBlockBody c body) (x :: xs) := by
+    intro elseM; unfold loopDispatch; rfl
+  match clauses, hcl with
+  | [], _ =>
+    rw [renderNode, loopRun_eq c.P c.cfg.path ⟨line, true⟩ tr var e mods _ none s v items0 off lim hv hitems hoff hlim,
+      hsel, hdisp]
+    exact AllRet.wrapAt hiter
+  | [els], _ =>
+    rw [renderNode, loopRun_eq c.P c.cfg.path ⟨line, true⟩ tr var e mods _ (some _) s v items0 off lim hv hitems hoff hlim,
+      hsel, hdisp]
+    exact AllRet.wrapAt hiter
+  | _ :: _ :: _, h => simp at h
+
+/-- **C12 (assign_scope_global).** In a block body `PRE {% assign x = v %} POST` where `POST` — any
+    nodes, blocks nested to any depth — does not write `x` (`writesList`): whenever the body ends
+    normally, `x` holds `v` *after the block*, in every state and for every `PRE`. The binding made
+    inside the block is not undone when the block (or any block nested in `POST`) ends: the
+    variable map is one flat map. (`v` is a literal so that its value does not depend on the state
+    `PRE` leaves; for an expression, `assign_seq` gives the value.) Enclosing blocks pass the
+    condition on: `if_scope`, `case_scope`, `loop_scope`/`loop_scope_visited`, `block_end_scope` —
+    see `assign_scope_nested` for three levels. -/
+theorem assign_scope_global (c : RCtx) (x : Bytes) (v : GoVal) (line : Nat) (pre post : List Node) (s : RS)
+    (hx : x ∉ writesList post) :
+    AllRet (EnvQ (fun k env => k = .done → env.get x = v.unwrap))
+      (renderBlockBody c (pre ++ .assign line x (.lit v) :: post) s) := by
+  refine block_end_scope c _ s _ (seq_scope_append c pre _ s _ ?_)
+  have htail : ∀ s1, AllRet (EnvQ (fun k env => k = SK.done → env.get x = v.unwrap))
+      (renderList c (.assign line x (.lit v) :: post) s1) := by
+    intro s1
+    rw [assign_seq c line x (.lit v) post s1 v.unwrap rfl]
+    refine (keeps_renderList c x post hx _).mono (fun r hr _ => ?_)
+    rw [hr]
+    exact Env.get_set_same _ _ _
+  refine (AllRet.trivial _).mono (fun r _ => ?_)
+  obtain ⟨st, s1⟩ := r
+  cases st with
+  | done => exact htail s1
+  | brk e => intro h; cases h
+  | cont e => intro h; cases h
+
+/-- a block consisting of one literal assignment always ends with the variable bound -/
+theorem assign_block_sets (c : RCtx) (x : Bytes) (v : GoVal) (line : Nat) (s : RS) :
+    AllRet (EnvQ (fun _ env => env.get x = v.unwrap)) (renderBlockBody c [.assign line x (.lit v)] s) := by
+  refine block_end_scope c _ s _ ?_
+  rw [assign_seq c line x (.lit v) [] s v.unwrap rfl, renderList]
+  exact .ret _ (Env.get_set_same _ _ _)
+
+/-- **C12 (three levels).** `{% if true %}{% for i in ARRAY-OF-TWO %}{% if … %}{% else %}{% assign x = v %}…`
+    — an assignment three blocks deep: after the outermost block `x` holds `v`, in every state, for
+    every context and every writer behaviour. Obtained by composing the rules above. -/
+theorem assign_scope_nested (c : RCtx) (s : RS) (v a b : GoVal) :
+    AllRet (EnvQ (fun _ env => env.get [120] = v.unwrap))
+      (renderBlockBody c
+        [.ifB 1 [(.expr 1 (.lit (.bool true)),
+          [.loop 2 false [105] (.lit (.slice .any [a, b])) {}
+            [.ifB 3 [(.always, [.assign 4 [120] (.lit v)])]] []])]] s) := by
+  -- a single node followed by nothing
+  have single : ∀ (n : Node) (s0 : RS), AllRet (EnvQ (fun _ env => env.get [120] = v.unwrap)) (renderNode c n s0) →
+      AllRet (EnvQ (fun _ env => env.get [120] = v.unwrap)) (renderBlockBody c [n] s0) := by
+    intro n s0 h
+    refine block_end_scope c _ s0 _ (seq_scope c n [] s0 _ (h.mono (fun r hr => ?_)))
+    obtain ⟨st, s1⟩ := r
+    cases st with
+    | done => rw [renderList]; exact .ret _ hr
+    | brk e => exact hr
+    | cont e => exact hr
+  -- innermost: `{% if … %}{% else %}{% assign x = v %}{% endif %}`
+  have hinner : ∀ s1, AllRet (fun r : Status × RS => r.2.env.get [120] = v.unwrap)
+      (renderBlockBody c [.ifB 3 [(.always, [.assign 4 [120] (.lit v)])]] s1) := by
+    intro s1
+    refine single _ s1 (if_scope c 3 _ s1 _ ?_ ?_)
+    · intro h
+      have := h (.always, [.assign 4 [120] (.lit v)]) (by simp)
+      simp [condRes] at this
+    · intro b hb _
+      simp only [List.mem_singleton] at hb
+      subst hb
+      exact assign_block_sets c [120] v 4 s1
+  -- the loop visits two items
+  have hJ : ∀ (env : Env) (y : Bytes) (w : GoVal), (y = [105] ∨ y = nmForloop) →
+      ((env.set y w).get [120] = v.unwrap ↔ env.get [120] = v.unwrap) := by
+    intro env y w hy
+    have hne : ([120] : Bytes) ≠ y := by rcases hy with rfl | rfl <;> decide
+    rw [Env.get_set_other _ _ _ _ hne]
+  refine single _ s (if_scope c 1 _ s _ ?_ ?_)
+  · intro h
+    have := h (.expr 1 (.lit (.bool true)), [.loop 2 false [105] (.lit (.slice .any [a, b])) {}
+            [.ifB 3 [(.always, [.assign 4 [120] (.lit v)])]] []]) (List.mem_singleton.mpr rfl)
+    simp [condRes, evaluate, eval, GoVal.unwrap, GoVal.test] at this
+  · intro br hbr _
+    simp only [List.mem_singleton] at hbr
+    subst hbr
+    refine single _ s (loop_scope_visited c 2 false [105] _ {} _ [] s (.slice .any [a, b]) [a, b] none none a [b]
+      (fun _ => True) (fun env => env.get [120] = v.unwrap) _ (by decide) rfl rfl rfl rfl rfl
+      (fun _ _ _ _ => Iff.rfl) hJ trivial (fun s1 _ => hinner s1) (fun s1 _ => hinner s1) (fun _ h => h))
+
+/-! ### The capture equivalence is an equivalence -/
+
+/-- the in-place rendering of a body as a whole template, read off its trace -/
+theorem renderRoot_of_traced_done (c : RCtx) (body : List Node) (env env' : Env) (ops : List WOp)
+    (ht : TracedAt (renderList c body) env ops (.ok .done env')) :
+    (renderRoot c body env).runPure = (twTotal {} ops, .ok .done) := by
+  rw [renderRoot_eq_blockBody, Prog.runPure_bind, tracedAt_blockBody_done c body env env' ops ht {}, twTotal_flush]
+  simp [EOut.withTw, Prog.runPure]
+
+/-- **C12 (capture_equiv, converse).** If `{% capture x %}BODY{% endcapture %}{{ x }}` renders
+    normally as a template, so does `BODY`, to the same bytes: a body that fails, or ends with a
+    stray `break`/`continue`, makes the capture fail or end the same way. With
+    `capture_equiv_root`: the two templates render normally under exactly the same conditions,
+    and then identically. -/
+theorem capture_equiv_root_conv (c : RCtx) (hinc : IncQuiet c) (hO : ∀ b, c.O.chunks (.str b) = .ok [b])
+    (l1 l2 : Nat) (x : Bytes) (body : List Node) (env : Env) (out : Bytes)
+    (h : (renderRoot c [.capture l1 x body, .obj l2 (.var x)] env).runPure = (out, .ok .done)) :
+    (renderRoot c body env).runPure = (out, .ok .done) := by
+  obtain ⟨ops, o, ht⟩ := traced_renderList c hinc body env
+  cases o with
+  | ok st env' =>
+    cases st with
+    | done =>
+      have hplace := renderRoot_of_traced_done c body env env' ops ht
+      have hfwd := capture_equiv_root c hinc hO l1 l2 x body env _ hplace
+      rw [hfwd] at h
+      rw [hplace]
+      exact h
+    | brk e =>
+      have hcap := captureM_of_traced (renderList c body) env env' ops (.brk e) ht {}
+      simp [renderRoot, renderList, renderNode, wrapAt, bind, M.bind, hcap, Prog.bind, Prog.mapFail, pure, M.pure,
+        Prog.runPure, Status.wrap] at h
+    | cont e =>
+      have hcap := captureM_of_traced (renderList c body) env env' ops (.cont e) ht {}
+      simp [renderRoot, renderList, renderNode, wrapAt, bind, M.bind, hcap, Prog.bind, Prog.mapFail, pure, M.pure,
+        Prog.runPure, Status.wrap] at h
+  | err e =>
+    have hcap := captureM_of_traced_err (renderList c body) env ops e ht {}
+    simp [renderRoot, renderList, renderNode, wrapAt, bind, M.bind, hcap, Prog.bind, Prog.mapFail, Prog.runPure] at h
+  | panic w =>
+    have hcap := captureM_of_traced_panic (renderList c body) env ops w ht {}
+    simp [renderRoot, renderList, renderNode, wrapAt, bind, M.bind, hcap, Prog.bind, Prog.mapFail, Prog.runPure] at h
+  | unmodelled w =>
+    have hcap := captureM_of_traced_unmodelled (renderList c body) env ops w ht {}
+    simp [renderRoot, renderList, renderNode, wrapAt, bind, M.bind, hcap, Prog.bind, Prog.mapFail, Prog.runPure] at h
+
+theorem capture_equiv_root_iff (c : RCtx) (hinc : IncQuiet c) (hO : ∀ b, c.O.chunks (.str b) = .ok [b])
+    (l1 l2 : Nat) (x : Bytes) (body : List Node) (env : Env) (out : Bytes) :
+    (renderRoot c [.capture l1 x body, .obj l2 (.var x)] env).runPure = (out, .ok .done) ↔
+      (renderRoot c body env).runPure = (out, .ok .done) :=
+  ⟨capture_equiv_root_conv c hinc hO l1 l2 x body env out, capture_equiv_root c hinc hO l1 l2 x body env out⟩
+
+/-- **C12 (capture_equiv for the engine).** For the engine's own context — any primitives, the
+    standard output layer, any configuration, file system and include fuel — the two context
+    hypotheses of `capture_equiv_root_iff` are discharged: `BODY` and
+    `{% capture x %}BODY{% endcapture %}{{ x }}` render normally under the same conditions, and then
+    to the same bytes. -/
+theorem capture_equiv_engine (P : Prims) (cfg : Cfg) (fs : FS) (fuel : Nat)
+    (l1 l2 : Nat) (x : Bytes) (body : List Node) (env : Env) (out : Bytes) :
+    (renderRoot (mkCtx P stdOut cfg fs fuel) [.capture l1 x body, .obj l2 (.var x)] env).runPure = (out, .ok .done) ↔
+      (renderRoot (mkCtx P stdOut cfg fs fuel) body env).runPure = (out, .ok .done) :=
+  capture_equiv_root_iff (mkCtx P stdOut cfg fs fuel) (incQuiet_mkCtx P stdOut cfg fs fuel) stdOut_str l1 l2 x body env out
+
+/-- **C12 (capture_equiv, failing body).** If `BODY` as a template fails with error `e` (after
+    whatever partial output), `{% capture x %}BODY{% endcapture %}{{ x }}` fails with the same error
+    re-wrapped at the capture tag (`wrapError` keeps a located error's cause, message kind and — if
+    it has one — its line), and writes nothing. -/
+theorem capture_equiv_root_err (c : RCtx) (hinc : IncQuiet c)
+    (l1 l2 : Nat) (x : Bytes) (body : List Node) (env : Env) (part : Bytes) (e : RawErr)
+    (hbody : (renderRoot c body env).runPure = (part, .err e)) :
+    (renderRoot c [.capture l1 x body, .obj l2 (.var x)] env).runPure =
+      ([], .err (.located (wrapError c.cfg.path e ⟨l1, true⟩))) := by
+  obtain ⟨ops, o, ht⟩ := traced_renderList c hinc body env
+  have hother : ∀ o', TracedAt (renderList c body) env ops o' → (∀ env', o' ≠ .ok .done env') →
+      (renderRoot c body env).runPure.2 = match o' with
+        | .ok st _ => .ok st
+        | .err e => .err e
+        | .panic w => .panic w
+        | .unmodelled w => .unmodelled w := by
+    intro o' ht' hnd
+    rw [renderRoot_eq_blockBody, Prog.runPure_bind, tracedAt_blockBody_other c body env ops o' ht' hnd {}]
+    cases o' <;> simp [EOut.withTw, Prog.runPure]
+  cases o with
+  | ok st env' =>
+    cases st with
+    | done => rw [renderRoot_of_traced_done c body env env' ops ht] at hbody; simp at hbody
+    | brk e' => have := hother _ ht (by intro _ h; cases h); rw [hbody] at this; simp at this
+    | cont e' => have := hother _ ht (by intro _ h; cases h); rw [hbody] at this; simp at this
+  | err e' =>
+    have := hother _ ht (by intro _ h; cases h)
+    rw [hbody] at this
+    simp only [Prog.Outcome.err.injEq] at this
+    subst this
+    have hcap := captureM_of_traced_err (renderList c body) env ops e ht {}
+    simp [renderRoot, renderList, renderNode, wrapAt, bind, M.bind, hcap, Prog.bind, Prog.mapFail, Prog.runPure]
+  | panic w => have := hother _ ht (by intro _ h; cases h); rw [hbody] at this; simp at this
+  | unmodelled w => have := hother _ ht (by intro _ h; cases h); rw [hbody] at this; simp at this
+
+/-- Non-vacuity of `capture_equiv_root_err`: `a{% cycle "b" %}` outside a loop fails at the cycle tag (line 2) -/
+example :
+    (renderRoot demoCtx [.capture 1 [120] [.text 1 [97], .cycle 2 [] [98] []], .obj 3 (.var [120])] []).runPure =
+      ([], .err (.located (wrapError [] (.located ⟨2, true, .none, .cycleOutside⟩) ⟨1, true⟩))) :=
+  capture_equiv_root_err demoCtx demoCtx_quiet 1 3 [120] [.text 1 [97], .cycle 2 [] [98] []] [] []
+    (.located ⟨2, true, .none, .cycleOutside⟩) (by
+      simp [renderRoot, renderList, renderNode, wrapFailAt, M.mapFail, M.bind, M.pure, writeM, M.getVar, M.fail, cyclesOf,
+        Env.get, Prog.bind, Prog.mapFail, Prog.runPure, bind, pure, demoCtx, errorfAt, wrapError])
+
+/-- `assign_scope_global` for an arbitrary expression: if what precedes the assignment in the
+    block establishes a condition `P` on the variables under which `e` evaluates to `v`, then `x`
+    holds `v` after the block (whenever the body ends normally and what follows does not write `x`). -/
+theorem assign_scope_expr (c : RCtx) (x : Bytes) (v : GoVal) (line : Nat) (e : Expr) (pre post : List Node) (s : RS)
+    (P : Env → Prop) (hx : x ∉ writesList post)
+    (hpre : AllRet (fun r : Status × RS => r.1 = .done → P r.2.env) (renderList c pre s))
+    (he : ∀ env, P env → evaluate c.P env e = .ok v) :
+    AllRet (EnvQ (fun k env => k = .done → env.get x = v))
+      (renderBlockBody c (pre ++ .assign line x e :: post) s) := by
+  refine block_end_scope c _ s _ (seq_scope_append c pre _ s _ ?_)
+  refine hpre.mono (fun r hr => ?_)
+  obtain ⟨st, s1⟩ := r
+  cases st with
+  | done =>
+    simp only
+    rw [assign_seq c line x e post s1 v (he _ (hr rfl))]
+    refine (keeps_renderList c x post hx _).mono (fun r hr _ => ?_)
+    rw [hr]
+    exact Env.get_set_same _ _ _
+  | brk e' => intro h; cases h
+  | cont e' => intro h; cases h
+
+/-- Non-vacuity: `{% assign y = 1 %}{% assign x = y %}{% if y %}…{% endif %}` — `x` holds what `y` held -/
+example (c : RCtx) (s : RS) (body : List Node) (hb : [120] ∉ writesList body) :
+    AllRet (EnvQ (fun k env => k = .done → env.get [120] = .int .int 1))
+      (renderBlockBody c ([.assign 1 [121] (.lit (.int .int 1))] ++ .assign 2 [120] (.var [121]) ::
+        [.ifB 3 [(.expr 3 (.var [121]), body)]]) s) :=
+  assign_scope_expr c [120] (.int .int 1) 2 (.var [121]) _ _ s (fun env => env.get [121] = .int .int 1)
+    (by simpa [writesList, writesNode, writesBranches] using hb)
+    (by
+      rw [assign_seq c 1 [121] (.lit (.int .int 1)) [] s (.int .int 1) rfl, renderList]
+      exact .ret _ (fun _ => Env.get_set_same _ _ _))
+    (fun env h => by simp [evaluate, eval, h, GoVal.toLiquid, GoVal.unwrap])
+
+/-- Non-vacuity of `only_written_change`: a loop over `i` whose body assigns `x` and runs a `cycle` tag
+    writes `x` only — its own variable `i` and `forloop` come back restored -/
+example (e e2 : Expr) :
+    writesList [.loop 1 false [105] e {} [.assign 2 [120] e2, .cycle 3 [] [97] []] []] = [[120]] := by
+  simp [writesList, writesNode, writesClauses, nmForloop]
+
+example (c : RCtx) (e e2 : Expr) (s : RS) :
+    AllRet (fun r : Status × RS => r.2.env.get [105] = s.env.get [105])
+      (renderBlockBody c [.loop 1 false [105] e {} [.assign 2 [120] e2, .cycle 3 [] [97] []] []] s) :=
+  only_written_change c [105] _ (by simp [writesList, writesNode, writesClauses, nmForloop]) s
+
+/-- Non-vacuity of `assign_scope_global`: what follows the assignment may be any blocks not writing `x` -/
+example (c : RCtx) (s : RS) (pre : List Node) (e : Expr) :
+    AllRet (EnvQ (fun k env => k = .done → env.get [120] = .str [118]))
+      (renderBlockBody c (pre ++ .assign 1 [120] (.lit (.str [118])) ::
+        [.loop 2 false [105] e {} [.assign 3 [121] (.var [120])] [], .text 4 [97]]) s) :=
+  assign_scope_global c [120] (.str [118]) 1 pre _ s (by simp [writesList, writesNode, writesClauses, nmForloop])
